@@ -142,6 +142,7 @@ func InterceptAll(path string) func(*Router) {
 func MaxNumCaches(num uint16) func(*Router) {
 	return func(r *Router) {
 		r.maxNumCaches = num
+		r.initCachedRoutes()
 	}
 }
 
@@ -150,6 +151,7 @@ func CachingWithNum(num uint16) func(*Router) {
 	return func(r *Router) {
 		r.maxNumCaches = num
 		r.enableCaching = true
+		r.initCachedRoutes()
 	}
 }
 
@@ -161,6 +163,7 @@ func UseEncodedPath(r *Router) {
 // EnableCaching for the router
 func EnableCaching(r *Router) {
 	r.enableCaching = true
+	r.initCachedRoutes()
 }
 
 // StrictLastSlash enable for the router
